@@ -8,6 +8,7 @@ import (
 	"bytes"
 	"fmt"
 	"io"
+	"runtime"
 
 	"seehuhn.de/go/membudget"
 	"seehuhn.de/go/pdf"
@@ -116,6 +117,17 @@ func RoundTrip(e *core.Env, c *fgen.Case, data []byte, wsched, rsched, dsched *s
 	if s.closed != 1 {
 		e.Fail("sink-close", attrs, "%s: the sink was closed %d times", c.Desc, s.closed)
 		return
+	}
+	if e.T.Bool("encoder.doubleclose", 1, 8) {
+		// a deferred Close next to an explicit one; whatever the second call
+		// returns, encoders opened afterwards must be unaffected (the Flate
+		// compressors come from a package-level pool)
+		enc.Close()
+		e.Probe("encoder closed twice")
+		if err := core.FlateEncodeCanary(); err != nil {
+			e.Fail("pool-corrupted", map[string]string{"mode": "encoder"}, "%s: after the encoder was closed twice, Flate encoders that are open at the same time interfere: %v", c.Desc, err)
+			return
+		}
 	}
 	encoded := s.buf.Bytes()
 	e.Steps(s.writes)
@@ -374,6 +386,24 @@ var _ = tape.Mix
 // with a small buffer) generalised: every parameterless filter and Flate/LZW,
 // inputs of 0..17 bytes, consumer buffers of 1, 2, 3 and 5 bytes.
 var corners = map[string]func(e *core.Env){
+	// Regression for 97c96c6: a second Close of a Flate encoder put its
+	// compressor into the package-level pool a second time.
+	"flate-encoder-double-close": func(e *core.Env) {
+		runtime.GC()
+		runtime.GC()
+		s := &sink{}
+		enc, err := pdf.FilterFlate{}.Encode(pdf.V1_7, s)
+		if err != nil {
+			e.Fail("encode-error", map[string]string{"filter": "Flate"}, "Encode: %v", err)
+			return
+		}
+		enc.Write(bytes.Repeat([]byte("double close "), 50))
+		enc.Close()
+		enc.Close()
+		if err := core.FlateEncodeCanary(); err != nil {
+			e.Fail("pool-corrupted", map[string]string{"mode": "encoder"}, "after a Flate encoder was closed twice: %v", err)
+		}
+	},
 	"tiny-buffers-every-filter": func(e *core.Env) {
 		filters := []pdf.Filter{pdf.FilterASCII85{}, pdf.FilterASCIIHex{}, pdf.FilterRunLength{}, pdf.FilterFlate{}, pdf.FilterLZW{}, pdf.FilterLZW{OffByOne: true},
 			pdf.FilterFlate{Predictor: pdf.FlatePredictorPNGUp, Columns: 1}, pdf.FilterCCITTFax{K: -1, Columns: 8}}
